@@ -8,6 +8,16 @@ PY = '/venv/bin/python'
 
 # property -> (category, level text, level note, technique, design ref)
 CLAIMED = {
+    'C01': ('other',
+            'Repository-specific static rules decide the structural clauses of the round trip on every path of the writers and the reader '
+            'configuration: escape discipline of every quoted slot on both write paths (leaf, block header), independence of the token stream '
+            'from the indentation options, read-only serialisation, escape configuration agreement between parse and the writers, and child '
+            'order (list-order single recursion; parse only appends). These hold for all trees because they are facts about the shape of the '
+            'code; the value-level equality itself is not claimed (the character-level inverse is C02).',
+            'Trusted: CPython ast, the f-string/quote lexer of engine/kvtext.py, the may-alias mutation finder of engine/effects.py. '
+            'Assumes C02 for the content of escaped slots.',
+            'static: KV-text effect extraction (quoted-slot lexer over f-strings) + mutation/effect analysis + reader-configuration check',
+            'DESIGN.md section 3, C01'),
     'C02': ('proof',
             'Finite obligation set discharged by table/normal-form computation on the source: the escape tables are folded from the AST, the '
             'regexes are read through re._parser, and the transition function of Tokenizer._handle_string is tabulated over the finite alphabet '
